@@ -203,7 +203,9 @@ def check_case(case) -> Result:
         for t, x, y in zip(ta, a, b):
             x = e2e.to_np(x)
             y = transform(e2e.to_np(y))
-            err = float(np.max(np.abs(x - y))) / scale
+            # energies are compared relative to their own magnitude where that is larger than the nominal scale (an SLM
+            # mask adds detunings of ~1e4 rad/us; <H^2> goes through a truncated MPO product with relative error ~1e-8)
+            err = float(np.max(np.abs(x - y))) / (max(scale, float(np.max(np.abs(x)))) if scale != 1.0 else 1.0)
             if not err <= tol:
                 r.fail("relabelling_changes:" + tag + (":internal_reorder" if perm_nontrivial else ":register_order"),
                        f"t={t:.6g}: |delta|={err:.3e} > {tol:.3e}; base {np.round(x, 6).tolist()} variant(re-indexed) {np.round(y, 6).tolist()} "
